@@ -43,6 +43,11 @@ def chain_instances(model, tier):
         elif k in spec.NARY:
             out.append(((k, [x, x, y]), f"{k}(repeated)"))
             out.append(((k, [xy, ("Negation", x), ("Constant", 2)]), f"{k}(chain)"))
+    if "NthRoot" in names and "NthPower" in names:
+        for (m, n) in ((2, 2), (2, 4), (4, 2), (3, 2), (2, 3), (3, 3)):
+            par = lambda k: "even" if k % 2 == 0 else "odd"
+            out.append((("NthRoot", ("NthPower", x, m), n), f"NthRoot[{par(n)}](NthPower[{par(m)}])"))
+            out.append((("NthPower", ("NthRoot", x, m), n), f"NthPower[{par(n)}](NthRoot[{par(m)}])"))
     s = ("Multiply", [x, y])
     out.append((("Add", [s, ("NthPower", s, 2), s]), "dag:shared-product"))
     out.append((("Divide", ("Sine", s), ("Exponential", s, E)), "dag:shared-in-quotient"))
@@ -183,7 +188,7 @@ def run_derivative_property(rep, prop, routes, expr_routes, judge_mode, explanat
                 d[1] += 1
     for (label, route), (n, good) in sorted(per.items()):
         if n == good:
-            cname = label.split("(")[0].split("<")[0].split(":")[0]
+            cname = label.split("(")[0].split("<")[0].split(":")[0].split("[")[0]
             where = model.cls(cname).where if cname in model.classes else ""
             rep.ok(f"{prop}.{judge_mode}", f"{label} via {route}", where,
                    f"{n} variable/region/parameter cases agree with the specification", cases=n)
